@@ -402,6 +402,14 @@ def u_encoding_classes(ctx):
     elif view == "reshape":
         enc = enc.reshape(ctx.params["newshape"])
         ref = ref.reshape(ctx.params["newshape"])
+    elif view == "chain":  # lazy views stacked on lazy views: each step must compose with what is already there
+        for op, arg in ctx.params["steps"]:
+            if op == "transpose":
+                enc, ref = enc.transpose(arg), ref.transpose(arg)
+            elif op == "flip":
+                enc, ref = enc.flip(arg), np.flip(ref, arg)
+            else:
+                enc, ref = enc.reshape(arg), ref.reshape(arg)
     mk = mk0.reshape(ref.shape)
     tag = "" if ref.any() else " (all-empty data)"
     ctx.read("dense", lambda: np.asarray(enc.dense).astype(bool).tolist(), ref.tolist())
@@ -500,11 +508,15 @@ def units(tier):
                    bounds="every bool array of length 5 (quick) / 6 x every mask (solver-driven forks over the bits)", max_paths=5000, wall_s=400))
     E = "trimesh.voxel.encoding."
     views = [("none", {}), ("flip", {"axes": (0,)}), ("flip", {"axes": (0, 1)}), ("transpose", {"perm": (1, 0, 2)}), ("transpose", {"perm": (2, 0, 1)}), ("flat", {}), ("reshape", {"newshape": (1, 4, 1)})]
+    chains = {"t021-t102": [("transpose", (0, 2, 1)), ("transpose", (1, 0, 2))], "t201-t102": [("transpose", (2, 0, 1)), ("transpose", (1, 0, 2))],
+              "t102-f0-t201": [("transpose", (1, 0, 2)), ("flip", (0,)), ("transpose", (2, 0, 1))], "f1-t120-f02": [("flip", (1,)), ("transpose", (1, 2, 0)), ("flip", (0, 2))],
+              "t021-r41-t10": [("transpose", (0, 2, 1)), ("reshape", (4, 1)), ("transpose", (1, 0))]}
+    views += [("chain", {"steps": st, "ctag": ct}) for ct, st in chains.items()]
     for kind in ("dense", "sparse", "rle", "brle"):
         for vname, vp in views:  # all views in both tiers (the cyclic transpose and the flat view exposed two defects that the first four views cannot show)
             p = {"shape": (2, 2, 1), "kind": kind, "view": vname}
             p.update(vp)
-            vtag = vname + "".join(map(str, vp.get("axes", vp.get("perm", vp.get("newshape", "")))))
+            vtag = vname + (vp["ctag"] if "ctag" in vp else "".join(map(str, vp.get("axes", vp.get("perm", vp.get("newshape", ""))))))
             us.append(Unit("encoding-%s-%s" % (kind, vtag), u_encoding_classes, params=p, key="encoding/%s/%s" % (kind, vtag), functions=[E + "DenseEncoding", E + "SparseBinaryEncoding", E + "RunLengthEncoding", E + "BinaryRunLengthEncoding", E + "FlippedEncoding", E + "TransposedEncoding", E + "FlattenedEncoding", E + "ShapedEncoding"],
                            bounds="every 2x2x1 bool voxel array x every mask of that shape", max_paths=600, wall_s=300))
     cells = [("10010110", 3, 0), ("00000001", 7, 2), ("11111111", (-1, 0, -2), 0), ("10010110", (2, -1, 1), 2)]
